@@ -204,14 +204,32 @@ func (x *Exec) callContract(st *State, fr *Frame, in ssa.Instruction, callee *ss
 	post := &CEnv{x: x, st: st, old: pre, vars: env.vars, pkg: env.pkg}
 	post = post.clone()
 	bindResults(post, callee, res)
+	// the enumeration order of a map range inside the callee is some permutation unknown to the caller
+	post.vars["rangeord"] = Fresh("ord."+callee.Name(), SArr(SInt, SInt))
 	for _, b := range spec.Behaviors {
+		penvVars := env.vars
+		postB := post
 		if len(b.Ghost) > 0 {
-			continue // behaviours with ghost parameters are proof-only views
+			// ghost parameters: usable only when the caller passes ghost arguments
+			// (`option ghost.<callee>.<name> = <expr>` in the caller's contract, evaluated in the caller's pre-state)
+			bound, ok := x.ghostArgs(pre, callee, b)
+			if !ok {
+				continue
+			}
+			penvVars = map[string]Value{}
+			for k, v := range env.vars {
+				penvVars[k] = v
+			}
+			postB = post.clone()
+			for k, v := range bound {
+				penvVars[k] = v
+				postB.vars[k] = v
+			}
 		}
 		var guard []*Term
 		if b != def {
 			okB := true
-			penv := &CEnv{x: x, st: pre, vars: env.vars, pkg: env.pkg}
+			penv := &CEnv{x: x, st: pre, vars: penvVars, pkg: env.pkg}
 			for _, c := range b.Requires {
 				t, err := penv.evalBool(c.E)
 				if err != nil {
@@ -225,7 +243,7 @@ func (x *Exec) callContract(st *State, fr *Frame, in ssa.Instruction, callee *ss
 			}
 		}
 		for _, c := range b.Ensures {
-			t, err := post.evalBool(c.E)
+			t, err := postB.evalBool(c.E)
 			if err != nil {
 				x.fail(fmt.Sprintf("postcondition of %s: %v", name, err))
 				continue
@@ -497,14 +515,29 @@ func (x *Exec) writeBytes(st *State, dst *SliceVal, content, n *Term) {
 	} else {
 		nb = CatN(Take(rv.Bytes, dst.Off), content, Drop(rv.Bytes, Add(dst.Off, n)))
 	}
+	if termSize(nb, 400) < 400 {
+		// keep the structured term: later reads simplify syntactically
+		if Len(nb) != Len(rv.Bytes) {
+			st.Assume(Eq(Len(nb), Len(rv.Bytes)))
+		}
+		st.Heap[dst.Reg] = &RegionVal{Bytes: nb}
+		return
+	}
 	c := Fresh(dst.Reg.Name+"w", SBytes)
 	st.Assume(Eq(c, nb))
 	st.Assume(Eq(App("len", SInt, c), Len(rv.Bytes)))
 	st.Heap[dst.Reg] = &RegionVal{Bytes: c}
-	// keep "whole slice" detection working: slices whose Len was len(old) denote the same length
-	if l := Len(rv.Bytes); l.Op == "app" {
-		st.Assume(Eq(l, App("len", SInt, c)))
+}
+
+func termSize(t *Term, cap int) int {
+	n := 1
+	for _, a := range t.Args {
+		if n >= cap {
+			return n
+		}
+		n += termSize(a, cap-n)
 	}
+	return n
 }
 
 func (x *Exec) appendOp(st *State, in ssa.Instruction, c *ssa.CallCommon, args []Value) Value {
@@ -582,9 +615,10 @@ func (x *Exec) loopName(fr *Frame, ord int) string {
 	return fmt.Sprintf("%s#%s.%sloop%d", shortKey(funcKey(x.fn)), x.beh.Name, prefix, ord)
 }
 
-func (x *Exec) invEnv(st *State, fr *Frame, h *ssa.BasicBlock, entry *State) *CEnv {
+func (x *Exec) invEnv(st *State, fr *Frame, h *ssa.BasicBlock, entry *State, iter *Term) *CEnv {
 	fn := fr.Fn.(*ssa.Function)
 	env := &CEnv{x: x, st: st, entry: entry, vars: map[string]Value{}, fr: fr, fn: fn, at: h, pkg: pkgPathOf(fn)}
+	env.vars["iter"] = iter
 	if fn == x.fn && x.entry != nil {
 		env.old = x.entry.pre
 		for k, v := range x.entry.ghosts {
@@ -603,7 +637,7 @@ func (x *Exec) loopEnter(st *State, fr *Frame, h, prev *ssa.BasicBlock, ord int,
 	// bind phis with entry values to check initialisation
 	x.bindPhis(st, fr, h, prev)
 	entry := st.Clone()
-	env := x.invEnv(st, fr, h, entry)
+	env := x.invEnv(st, fr, h, entry, IntLit(0))
 	for i, c := range ls.Invariants {
 		if c.Only != "" && c.Only != x.beh.Name {
 			continue
@@ -633,7 +667,9 @@ func (x *Exec) loopEnter(st *State, fr *Frame, h, prev *ssa.BasicBlock, ord int,
 		hst.Assume(Ge(a, hst.Alloc))
 		hst.Alloc = a
 	}
-	henv := x.invEnv(hst, hfr, h, entry)
+	iter := Fresh("iter", SInt)
+	hst.Assume(Le(IntLit(0), iter))
+	henv := x.invEnv(hst, hfr, h, entry, iter)
 	for _, c := range ls.Invariants {
 		if c.Only != "" && c.Only != x.beh.Name {
 			continue
@@ -644,7 +680,7 @@ func (x *Exec) loopEnter(st *State, fr *Frame, h, prev *ssa.BasicBlock, ord int,
 		}
 		hst.Assume(t)
 	}
-	lc := &loopCtx{header: h, spec: ls, parent: outer, entry: entry, fr: hfr}
+	lc := &loopCtx{header: h, spec: ls, parent: outer, entry: entry, fr: hfr, iter: iter}
 	if ls.Decreases != nil {
 		v, err := henv.evalTerm(ls.Decreases)
 		if err != nil {
@@ -663,7 +699,7 @@ func (x *Exec) loopBackEdge(st *State, fr *Frame, h, prev *ssa.BasicBlock, lc *l
 		return
 	}
 	x.bindPhis(st, fr, h, prev)
-	env := x.invEnv(st, fr, h, lc.entry)
+	env := x.invEnv(st, fr, h, lc.entry, Add(lc.iter, IntLit(1)))
 	for i, c := range lc.spec.Invariants {
 		if c.Only != "" && c.Only != x.beh.Name {
 			continue
@@ -824,4 +860,48 @@ func (x *Exec) applyHavoc(st *State, ms *modSet) {
 		}
 		st.Heap[o] = cur
 	}
+}
+
+// ghostArgs evaluates the ghost arguments the verified function's contract passes to a callee behaviour.
+func (x *Exec) ghostArgs(pre *State, callee *ssa.Function, b *Behavior) (map[string]Value, bool) {
+	if x.entry == nil || len(x.inl) > 0 {
+		return nil, false
+	}
+	out := map[string]Value{}
+	env := &CEnv{x: x, st: pre, old: x.entry.pre, vars: map[string]Value{}, pkg: x.spec.Pkg}
+	for k, v := range x.entry.params {
+		env.vars[k] = v
+	}
+	for k, v := range x.entry.ghosts {
+		env.vars[k] = v
+	}
+	for _, g := range b.Ghost {
+		src, ok := x.spec.Options["ghost."+callee.Name()+"."+g.Name]
+		if !ok {
+			return nil, false
+		}
+		ex, err := ParseCExpr(src)
+		if err != nil {
+			x.fail("ghost argument " + g.Name + " for " + callee.Name() + ": " + err.Error())
+			return nil, false
+		}
+		var val Value
+		func() {
+			defer func() {
+				if r := recover(); r != nil {
+					if _, isC := r.(cevalErr); isC {
+						val = nil
+						return
+					}
+					panic(r)
+				}
+			}()
+			val = env.eval(ex)
+		}()
+		if val == nil {
+			return nil, false // the ghost argument is not meaningful in this behaviour (e.g. refers to a ghost of another behaviour)
+		}
+		out[g.Name] = val
+	}
+	return out, true
 }
